@@ -20,26 +20,51 @@ template<> struct Delegate<int, photon::rpc::OutOfOrderContext*> : public Delega
 };
 // Stand-in for the engine's std::unordered_map<tag, context*> (libstdc++ container code is outside the property; the real hash
 // table costs > 100 k symbolic-execution steps per insert): a small array (one slot per caller) with the same lookup / insert / erase contract.
+#if KN <= 2
 #define MAPSLOTS 2
+#else
+#define MAPSLOTS 3
+#endif
 namespace std {
 template<> class unordered_map<uint64_t, photon::rpc::OutOfOrderContext*> {
 public:
     struct Slot { bool used; uint64_t first; photon::rpc::OutOfOrderContext* second; };
     typedef Slot* iterator;
     Slot s[MAPSLOTS];
-    // loop-free (MAPSLOTS == 2): the leader loop of the engine then fixes the unwinding bound alone
-    unordered_map() { s[0].used = false; s[0].first = 0; s[0].second = nullptr; s[1].used = false; s[1].first = 0; s[1].second = nullptr; }
+    // loop-free (one slot per caller, written out for 2 or 3): the leader loop of the engine then fixes the unwinding bound alone
+#if MAPSLOTS == 2
+#define M_EACH(M) M(0) M(1)
+#else
+#define M_EACH(M) M(0) M(1) M(2)
+#endif
+    unordered_map() {
+#define M_I(i) s[i].used = false; s[i].first = 0; s[i].second = nullptr;
+        M_EACH(M_I)
+#undef M_I
+    }
     iterator end() { return s + MAPSLOTS; }
-    iterator find(uint64_t k) { if (s[0].used && s[0].first == k) return &s[0]; if (s[1].used && s[1].first == k) return &s[1]; return end(); }
+    iterator find(uint64_t k) {
+#define M_F(i) if (s[i].used && s[i].first == k) return &s[i];
+        M_EACH(M_F)
+#undef M_F
+        return end();
+    }
     std::pair<iterator, bool> insert(std::pair<uint64_t, photon::rpc::OutOfOrderContext*> v) {
         iterator f = find(v.first); if (f != end()) return {f, false};
-        if (!s[0].used) { s[0].used = true; s[0].first = v.first; s[0].second = v.second; return {&s[0], true}; }
-        if (!s[1].used) { s[1].used = true; s[1].first = v.first; s[1].second = v.second; return {&s[1], true}; }
+#define M_N(i) if (!s[i].used) { s[i].used = true; s[i].first = v.first; s[i].second = v.second; return {&s[i], true}; }
+        M_EACH(M_N)
+#undef M_N
         __CPROVER_assume(false); return {end(), false};
     }
     size_t erase(uint64_t k) { iterator f = find(k); if (f == end()) return 0; f->used = false; return 1; }
     iterator erase(iterator it) { it->used = false; return it + 1; }
-    size_t size() const { return (size_t)s[0].used + (size_t)s[1].used; }
+    size_t size() const {
+        size_t n = 0;
+#define M_C(i) n += (size_t)s[i].used;
+        M_EACH(M_C)
+#undef M_C
+        return n;
+    }
 };
 }
 #include "rpc/out-of-order-execution.cpp"
